@@ -24,6 +24,7 @@ def _claim_comment(
     *,
     backwards: bool,
     ignore_if_already_claimed: bool,
+    indented: bool,
 ) -> Optional[BlockComment]:
     if current is not None:
         return current
@@ -44,6 +45,8 @@ def _claim_comment(
     comment = _take_ignored(succ(newline), succ, ignored)
     if not isinstance(comment, BlockComment):
         return None
+    if bool(comment.indent) != indented:
+        return None  # only comments with the same indentation as the model are its leading / trailing comments
 
     if comment.claimed:
         if ignore_if_already_claimed:
@@ -70,7 +73,8 @@ class SurroundingCommentsMixin(base.RawTreeModel):
             self.token_store,
             self.first_token,
             backwards=True,
-            ignore_if_already_claimed=ignore_if_already_claimed)
+            ignore_if_already_claimed=ignore_if_already_claimed,
+            indented=hasattr(self, 'raw_indent'))
         return self._leading_comment
 
     def unclaim_leading_comment(self) -> Optional[BlockComment]:
@@ -86,7 +90,8 @@ class SurroundingCommentsMixin(base.RawTreeModel):
             self.token_store,
             self.last_token,
             backwards=False,
-            ignore_if_already_claimed=ignore_if_already_claimed)
+            ignore_if_already_claimed=ignore_if_already_claimed,
+            indented=hasattr(self, 'raw_indent'))
         return self._trailing_comment
 
     def unclaim_trailing_comment(self) -> Optional[BlockComment]:
